@@ -59,6 +59,8 @@ func genC06(r *hysim.Rand, tier string) *hysim.Script {
 	sc.Cfg["win_small"] = int64(r.Pick(0, 0, 1))
 	sc.Cfg["slow_tgt_us"] = r.Pick64(0, 0, 300, 20000) // slow readers let the relay's buffers fill
 	sc.Cfg["slow_cli_us"] = r.Pick64(0, 0, 300, 20000)
+	sc.Cfg["addr_len"] = r.Pick64(0, 0, 0, 63, 64, 255, 2048, int64(r.Range(10, 300)))
+	sc.Cfg["err_len"] = r.Pick64(0, 0, 63, 64, 300, 2048)
 	sc.Cfg["early_deadline"] = int64(r.Pick(0, 0, 1)) // first Read under a deadline that expires before any reply can arrive, then retried
 	netCfg(r, sc, 60)
 	wYieldCfg(r, sc, 2000000)
@@ -211,6 +213,10 @@ func execC06(x *hysim.Run) {
 		if c.dialFail {
 			c.addr = fmt.Sprintf("fail-k%d.sim:80", k)
 		}
+		// address (and dial-error message) lengths at the varint boundaries of the framing
+		if n := int(clamp(sc.Get("addr_len", 0), 0, 2048)); n > len(c.addr) {
+			c.addr = c.addr[:len(c.addr)-7] + "-" + strings.Repeat("x", n-len(c.addr)-1) + ".sim:80"
+		}
 		cw.conns = append(cw.conns, c)
 	}
 	w.onTCP = func(reqAddr string, seq uint64) (net.Conn, error) {
@@ -226,7 +232,7 @@ func execC06(x *hysim.Run) {
 		}
 		if c.dialFail {
 			x.Fault("outbound.dial-error")
-			return nil, fmt.Errorf("boom-%d: connection refused by simulation", c.k)
+			return nil, errors.New(cw.dialErrMsg(c))
 		}
 		if c.tgt != nil {
 			x.Violate("duplicate-dial", "Outbound.TCP(%q) called twice for one client request", reqAddr)
@@ -513,6 +519,14 @@ func (c *c06Conn) tgtDone() chan struct{} {
 	return c.tgtStarted
 }
 
+func (cw *c06World) dialErrMsg(c *c06Conn) string {
+	m := fmt.Sprintf("boom-%d: connection refused by simulation", c.k)
+	if n := int(clamp(cw.x.Script.Get("err_len", 0), 0, 2048)); n > len(m) {
+		m += strings.Repeat("!", n-len(m))
+	}
+	return m
+}
+
 func (cw *c06World) judgeDialErr(c *c06Conn, err error, lazy bool) {
 	x := cw.x
 	if c.cClosed {
@@ -534,7 +548,7 @@ func (cw *c06World) judgeDialErr(c *c06Conn, err error, lazy bool) {
 	}
 	var de coreErrs.DialError
 	if errors.As(err, &de) {
-		want := fmt.Sprintf("boom-%d: connection refused by simulation", c.k)
+		want := cw.dialErrMsg(c)
 		if de.Message != want {
 			x.Violate("dial-error-message", "k%d: dial error message %q, the outbound said %q", c.k, de.Message, want)
 		} else {
